@@ -160,8 +160,10 @@ def ob_gt_loop():
     lay = P.layout(cut.fn.module)
     iphi = [p for p in phis if lay.resolve(p.ty).bits == 32]
     bphi = [p for p in phis if lay.resolve(p.ty).bits in (1, 8)]
-    if len(iphi) != 1 or len(bphi) != 1 or len(phis) != 2:
+    # the index, and optionally the found_one flag (a variant that always squares has none: squaring one is harmless)
+    if len(iphi) != 1 or len(bphi) > 1 or len(phis) != 1 + len(bphi):
         raise Inconclusive("unexpected loop-carried registers in exponentiate_gt: %r" % [(p.res, p.ty) for p in phis])
+    has_flag = len(bphi) == 1
     E = z3.Int("E")
     Iv = z3.BitVec("i", 32)
     found = z3.Bool("found_one")
@@ -183,12 +185,13 @@ def ob_gt_loop():
     I.add_intercept(CORE + r"BigInt<64>::bit\(int\) const", h_bit, "BigInt<64>::bit")
 
     def on_entry(regs):
-        state["entry"] = (regs[iphi[0].res], regs[bphi[0].res], I.gt_rd(Ptr(state["this"], 0)))
+        state["entry"] = (regs[iphi[0].res], regs[bphi[0].res] if has_flag else 0, I.gt_rd(Ptr(state["this"], 0)))
         state["t"] = None
 
     def havoc(regs):
         regs[iphi[0].res] = Iv
-        regs[bphi[0].res] = found if lay.resolve(bphi[0].ty).bits == 1 else z3.If(found, z3.BitVecVal(1, 8), z3.BitVecVal(0, 8))
+        if has_flag:
+            regs[bphi[0].res] = found if lay.resolve(bphi[0].ty).bits == 1 else z3.If(found, z3.BitVecVal(1, 8), z3.BitVecVal(0, 8))
         I.gt_wr(Ptr(state["this"], 0), E)
     cut.on_entry, cut.havoc = on_entry, havoc
 
@@ -231,11 +234,13 @@ def ob_gt_loop():
             vcs.append(("bit-position", eir.as_bv(pos, 32) == Iv, "digit %d is tested at a position other than the loop index" % j))
         if kind == "cut":
             saw_cut = True
-            ni, nf = regs[iphi[0].res], regs[bphi[0].res]
-            nfb = nf if isinstance(nf, z3.BoolRef) else (z3.BoolVal(bool(nf)) if is_conc(nf) else nf != 0)
+            ni = regs[iphi[0].res]
             vcs.append(("index", eir.as_bv(ni, 32) == Iv - 1, "loop index is not decremented"))
-            vcs.append(("flag", nfb == z3.Or(found, *[bits[j] for j in bits]), "found_one is not (found_one or some bit)"))
-            vcs.append(("invariant", z3.Implies(z3.Not(nfb), En == 0), "invariant not preserved"))
+            if has_flag:
+                nf = regs[bphi[0].res]
+                nfb = nf if isinstance(nf, z3.BoolRef) else (z3.BoolVal(bool(nf)) if is_conc(nf) else nf != 0)
+                vcs.append(("flag", nfb == z3.Or(found, *[bits[j] for j in bits]), "found_one is not (found_one or some bit)"))
+                vcs.append(("invariant", z3.Implies(z3.Not(nfb), En == 0), "invariant not preserved"))
             vcs.append(("continues", Iv != 0, "loop continues after index 0"))
         else:
             saw_exit = True
